@@ -120,6 +120,7 @@ func resetMkTyp(name, flav string, mt protoreflect.MessageType) *resetTyp {
 			}
 		}
 	}
+	sort.Slice(rt.flds, func(i, j int) bool { return rt.flds[i].fd.Number() < rt.flds[j].fd.Number() })
 	protoregistry.GlobalTypes.RangeExtensionsByMessage(md.FullName(), func(xt protoreflect.ExtensionType) bool {
 		xd := xt.TypeDescriptor()
 		if xd.Cardinality() != protoreflect.Required && !(xd.Message() != nil && xd.Message().RequiredNumbers().Len() > 0) {
@@ -211,10 +212,12 @@ func resetScalar(fd protoreflect.FieldDescriptor, r *resetRng, nz bool) (protore
 	case protoreflect.DoubleKind:
 		return protoreflect.ValueOfFloat64(float64(k) / 8), nz
 	case protoreflect.StringKind:
-		if !nz {
+		// explicit-presence strings are *string in opaque structs: like bytes, an
+		// empty value has a representation the model does not track
+		if !nz && !fd.HasPresence() {
 			return protoreflect.ValueOfString(""), false
 		}
-		return protoreflect.ValueOfString("s" + strconv.FormatUint(k, 10)), true
+		return protoreflect.ValueOfString("s" + strconv.FormatUint(r.next()%1000+1, 10)), true
 	case protoreflect.BytesKind:
 		// zero-length bytes have two representations (nil, empty) that the model
 		// does not distinguish: bytes values are always non-empty
@@ -389,7 +392,9 @@ func (o *resetOp) tok(rt *resetTyp) string {
 	case "um", "un":
 		fl := "n"
 		if o.fail >= 0 {
-			fl = strconv.Itoa(o.fail)
+			// second part: protolazy.buildIndex still accepts the input (it only
+			// skips top-level fields): field number 0, bad nested payload, invalid UTF-8
+			fl = strconv.Itoa(o.fail) + "." + resetB(o.fkind == 2 || o.fkind == 5 || o.fkind == 6)
 			if o.fkind == 5 {
 				fl += "." + fmt.Sprintf("%x.%s", uint64(o.ff.fd.Number()), o.ff.cls)
 			}
@@ -790,7 +795,7 @@ func resetObs(rt *resetTyp, m protoreflect.Message) string {
 // resetConcrete (generated types in the default build): the numbers of the
 // struct fields holding a non-zero Go value (oneofs: g<index>), and
 // p = some presence bit set, z = lazy info allocated, s = size cache non-zero,
-// e = extension map: n(il) or its length.
+// e = number of entries of the extension map.
 func resetConcrete(rt *resetTyp, m protoreflect.Message) string {
 	if rt.flav == "dyn" || !resetFastBuild {
 		return "-"
@@ -799,7 +804,7 @@ func resetConcrete(rt *resetTyp, m protoreflect.Message) string {
 	t := v.Type()
 	var nums []int
 	var grps []int
-	p, z, s, e := "0", "0", "0", "-"
+	p, z, s, e := "0", "0", "0", "0"
 	for i := 0; i < t.NumField(); i++ {
 		sf := t.Field(i)
 		fv := v.Field(i)
@@ -810,11 +815,7 @@ func resetConcrete(rt *resetTyp, m protoreflect.Message) string {
 			s = resetB(!fv.IsZero())
 			continue
 		case "extensionFields":
-			if fv.IsNil() {
-				e = "n"
-			} else {
-				e = strconv.Itoa(fv.Len())
-			}
+			e = strconv.Itoa(fv.Len())
 			continue
 		case "XXX_presence":
 			p = resetB(!fv.IsZero())
